@@ -137,6 +137,11 @@ def execute(plan: dict) -> dict:
     faults: dict = {}
     wall = 0
     trace = []
+    import shutil
+
+    workdir = os.path.join(_TMP, "workspace")
+    shutil.rmtree(workdir, ignore_errors=True)
+    os.makedirs(workdir)
     for ei, ep in enumerate(plan["epochs"]):
         if ei > 0:
             faults["restart"] = faults.get("restart", 0) + 1
@@ -148,13 +153,15 @@ def execute(plan: dict) -> dict:
             faults["clock_stepped_back"] = faults.get("clock_stepped_back", 0) + 1
         elif ei > 0:
             wall += ep.get("gap_us", 5_000_000)
-        spec = {"first_draw": draw, "wall_us": wall, "imports": ep["imports"], "ops": ep["ops"]}
+        spec = {"first_draw": draw, "wall_us": wall, "imports": ep["imports"], "ops": ep["ops"], "workdir": workdir}
         res = _fork_call(_run_epoch, spec)
         if res.get("fatal"):
             raise HarnessError("epoch failed: " + res["fatal"])
         if not res.get("seam_ok"):
             raise HarnessError("entropy seam not attached (spsdk.crypto.rng does not use the simulated device)")
         draw = res["next_draw"]
+        if os.environ.get("VERIF_C17_DEBUG"):
+            print("epoch", ei, res.get("clock"), file=sys.stderr)
         n_import_draws = sum(1 for d in res["draws"] if d[2] == "import")
         if n_import_draws:
             probes["draws_during_import"] = probes.get("draws_during_import", 0) + n_import_draws
@@ -256,7 +263,8 @@ def gen_op(rng: random.Random) -> dict:
     elif kind == "bee":
         o["variant"] = rng.choice(["prdb", "kib", "header"])
     elif kind == "hab":
-        o["variant"] = rng.choice(["nonce", "dek"])
+        o["variant"] = rng.choice(["nonce", "dek", "dek"])
+        o["ws"] = rng.choice(["ws0", "ws0", "ws0", "ws1"])
         o["bits"] = rng.choice([128, 192, 256])
         o["len"] = rng.choice([16, 4096, 70000])
     return o
